@@ -317,6 +317,45 @@ func buildC16(tier string) *core.Plan {
 			}
 			c.Outcome("cli-migrate-ok")
 		}})
+	// three inputs through the real command line (the fold over the arguments lives in main.go)
+	t3 := c15Trees(2)
+	n3c := int64(len(t3))
+	spaces = append(spaces, core.Space{Name: "cli-three-inputs", N: n3c * n3c * n3c,
+		Desc: func(i int64) any { return []any{t3[i/(n3c*n3c)], t3[(i/n3c)%n3c], t3[i%n3c]} },
+		Run: func(c *core.Ctx, i int64) {
+			ins := []any{t3[i/(n3c*n3c)], t3[(i/n3c)%n3c], t3[i%n3c]}
+			dir := scratchDir()
+			defer os.RemoveAll(dir)
+			names := []string{"a.yaml", "b.json", "c.toml"}
+			for k, d := range ins {
+				if writeDoc(dir, names[k], names[k][2:], d) != nil {
+					return
+				}
+			}
+			c.Eval()
+			c.Trans(1)
+			so, se, code, err := runTool(dir, "bkli", "-f", "json", names[0], names[1], names[2])
+			wit := "cli three inputs: " + core.Canon(ins)
+			c.Validated()
+			if err != nil || code != 0 {
+				c.Fail("cli-three-inputs", "bkli-fails", wit, se)
+				return
+			}
+			got, perr := c14ParseText("json", so)
+			if perr != nil {
+				c.Fail("cli-three-inputs", "unparsable", wit, so)
+				return
+			}
+			if p := c16Common(got, ins, "$"); p != "" {
+				c.Outcome("NOT-MAXIMAL-COMMON")
+				c.Fail("common-and-maximal", "violated", wit, map[string]any{"result": got, "problem": p})
+				return
+			}
+			if !core.Equal(ins[0], ins[1]) || !core.Equal(ins[1], ins[2]) {
+				c.Nontrivial()
+			}
+			c.Outcome("cli-three-ok")
+		}})
 	// the same document in two formats: self-intersection across formats, boundary numbers included
 	numDocs := []any{
 		map[string]any{"quota": 3000000000, "sizes": []any{1, 4294967296}, "f": 0.1, "max": math.MaxInt64, "neg": -2147483649},
